@@ -73,6 +73,10 @@ EXPLANATION += (
     ' Round 9: the HDF5 codec field map of C15 is shared: per-level fields are stored as found, not recomputed over the output hierarchy.'
 )
 
+EXPLANATION += (
+    " Round 11: the run's tree is never asked about a node named by the marker table (R-PROV/tree-asked-about-its-own-nodes)."
+)
+
 RULE_TEXT = (
     "one obligation per consumer of the tree, per reducer call, per "
     "drop_level(<config>) call site, per flatten rebinding")
